@@ -3,9 +3,9 @@ CONSTANTS
   Designs <- DesignsEmitThorough
   Growths <- G3
   MaxNonUnit = 2
-  LevelTriples <- TriplesQuick
-  BreakStep = 1
-  FromInput <- FromBoth
+  LevelTriples <- TriplesEmit
+  BreakStep = 2
+  FromInput <- FromRef
   ExplicitTargets = TRUE
   Refusals = TRUE
   ZeroHeightRefused = FALSE
